@@ -91,6 +91,9 @@ def run(ctx: Ctx) -> None:
                     ctx.violation({"engine": "transform_corpus", "testcase": rec["key"], "transform": tr, "what": "invalid_model"}, f"{tr}({rec['key']}): exported model does not run: {pr.get('why')}", rec)
             if len(ctx.cov["samples"]) < 8 and any(p["status"] == "compared" for p in rec["per_transform"].values()):
                 ctx.sample({"testcase": rec["key"], "transforms": {t: p["status"] + (": " + p["problem"] if p.get("problem") else "") for t, p in rec["per_transform"].items()}})
+    from harness.checks.c01 import axis_operator_replay
+
+    ncmp += axis_operator_replay(ctx, "vmap", "axis_vmap")
     ctx.extra["corpus_transform_status"] = stats
     ctx.cov["traces_validated_against_impl"] = ncmp
     ctx.cov["rule"] = "one evaluation = one transformed callable exported and executed in ORT vs JAX's own evaluation of the transformed callable (or one exact template case); export failures of T(f) are counted, not alarmed"
